@@ -51,6 +51,9 @@ using L_P10 = List<D<P, Big32, 32>, D<P, u8>>;
 using L_P11 = List<D<P, bool>, D<P, Ptr>, D<P, En>, D<P, Emp>, D<P, u16>>;
 using L_F10 = List<D<P, u8>, D<F, Big32, 32>, D<P, bool>>;
 using L_V13 = List<D<P, sz, 8>, D<V, Big32, 32>, D<P, En>>;
+// a type with an overloaded unary operator& as first and last parameter, and in spans
+using L_P13 = List<D<P, Amp>, D<P, u8>, D<P, Amp>>;
+using L_F12 = List<D<F, Amp>, D<P, u16>, D<P, Amp>>;
 // many parameters: three VaryingSize parameters with three count types; two FixedSize and one VaryingSize parameter with
 // decreasing alignments
 using L_V14 = List<D<P, u8>, D<V, u16>, D<P, u32>, D<V, u8>, D<P, u16>, D<V, f32>>;
